@@ -110,17 +110,22 @@ def _spec_of(sc, key, effective):
     return {'given': True, 'val': effective, 'ffhas': False, 'ffval': 0}
 
 
-def build_molecule(sc, twin=False, moltype='verif_mol'):
-    """Real Molecule of the scenario (with a force field object of its own); returns (molecule, key -> particle index)."""
-    import numpy as np
-    from vermouth.molecule import Molecule
+def make_force_field(sc, name):
     from vermouth.forcefield import ForceField
-    ff = ForceField(name='verif_c15_' + moltype)
+    ff = ForceField(name='verif_c15_' + name)
     rs, bs = _spec_of(sc, 'rmdspec', sc['rmd']), _spec_of(sc, 'btspec', 6)
     if rs['ffhas']:
         ff.variables['elastic_network_res_min_dist'] = rs['ffval']
     if bs['ffhas']:
         ff.variables['elastic_network_bond_type'] = bs['ffval']
+    return ff
+
+
+def build_molecule(sc, twin=False, moltype='verif_mol', ff=None):
+    """Real Molecule of the scenario (with a force field object of its own unless one is given); returns (molecule, key -> particle index)."""
+    import numpy as np
+    from vermouth.molecule import Molecule
+    ff = ff or make_force_field(sc, moltype)
     mol = Molecule(force_field=ff, nrexcl=1, meta={'moltype': moltype})
     lay = sc['twin'] if twin else sc['layout']
     keys, order = lay['keys'], lay['order']          # keys[i] = node key of particle i+1; order = insertion order
@@ -246,15 +251,19 @@ def run_real(sc, twin=False):
 
 
 def run_system_real(ssc):
-    """ONE processor object over a System of several molecules (run_system), `calls` times.  Returns per call and molecule the
-    record of what that call did to that molecule."""
+    """ONE processor object over one or two Systems (a System has one force field; the molecules of a group share it) of several
+    molecules, run_system on each, the whole round `calls` times.  Returns per round and molecule the record of what that round did
+    to that molecule."""
     from vermouth.system import System
-    system = System()
-    built = []
+    systems, ffs, built = {}, {}, []
     for k, sc in enumerate(ssc['mols']):
-        mol, index = build_molecule(sc, moltype='verif_mol_%d' % k)
+        g = sc.get('group', 0)
+        if g not in systems:
+            ffs[g] = make_force_field(sc, 'group_%d' % g)
+            systems[g] = System(force_field=ffs[g])
+        mol, index = build_molecule(sc, moltype='verif_mol_%d' % k, ff=ffs[g])
         built.append((mol, index))
-        system.add_molecule(mol)
+        systems[g].add_molecule(mol)
     proc = make_processor(ssc['mols'][0])
     out = []
     for call in range(ssc['calls']):
@@ -262,10 +271,13 @@ def run_system_real(ssc):
         exc = ''
         with _Listen() as ear:
             try:
-                proc.run_system(system)
+                for g in sorted(systems):
+                    proc.run_system(systems[g])
             except Exception as err:       # noqa
                 exc = repr(err)
-        same_objects = len(system.molecules) == len(built) and all(a is b[0] for a, b in zip(system.molecules, built))
+        now = [m for g in sorted(systems) for m in systems[g].molecules]
+        then = [b[0] for g in sorted(systems) for b, sc in zip(built, ssc['mols']) if sc.get('group', 0) == g]
+        same_objects = len(now) == len(then) and all(a is b for a, b in zip(now, then))
         recs = []
         for k, (mol, index) in enumerate(built):
             bonds, others = _project(mol, index, before[k])
@@ -607,6 +619,8 @@ def make_system(rng):
     given_rmd = rng.random() < 0.3
     given_bt = rng.random() < 0.3
     names = first['selector']['names']
+    # one or two Systems (force fields): the molecules of a group read the same variables
+    groups = [{'rmd': rng.choice([None, 0, 1, 2, 3]), 'bt': rng.choice([None, 1, 2, 6])} for _ in range(rng.choice([1, 2, 2]))]
     roles = ['plain'] + rng.sample(['plain', 'nan', 'nopos', 'empty', 'plain'], rng.randint(1, 3))
     rng.shuffle(roles)
     mols = []
@@ -639,20 +653,13 @@ def make_system(rng):
                     a['nopos'] = rng.choice(['absent', 'none'])
             if role == 'plain' and len(sel) < 2:
                 continue
-            # separation and bond type: the processor's argument is shared; otherwise every molecule's own force field decides
-            sc['rmd'] = first['rmd'] if given_rmd else rng.choice([0, 1, 2, 2, 3])
-            if given_rmd:
-                other = rng.random() < 0.5
-                sc['rmdspec'] = {'given': True, 'val': sc['rmd'], 'ffhas': other, 'ffval': sc['rmd'] + 1 if other else 0}
-            elif sc['rmd'] == 2 and rng.random() < 0.5:
-                sc['rmdspec'] = {'given': False, 'val': 0, 'ffhas': False, 'ffval': 0}
-            else:
-                sc['rmdspec'] = {'given': False, 'val': 0, 'ffhas': True, 'ffval': sc['rmd']}
-            if given_bt:
-                sc['btspec'] = {'given': True, 'val': first['btspec']['val'] if first['btspec']['given'] else 1, 'ffhas': True, 'ffval': 5}
-            else:
-                bt = rng.choice([1, 6, 2])
-                sc['btspec'] = {'given': False, 'val': 0, 'ffhas': bt != 6 or rng.random() < 0.5, 'ffval': bt}
+            # separation and bond type: the processor's argument is shared; otherwise the force field of the molecule's System decides
+            sc['group'] = len(mols) % len(groups)
+            g = groups[sc['group']]
+            arg_rmd = first['rmd'] if mols else sc['rmd']
+            sc['rmd'] = arg_rmd if given_rmd else (g['rmd'] if g['rmd'] is not None else 2)
+            sc['rmdspec'] = {'given': given_rmd, 'val': arg_rmd if given_rmd else 0, 'ffhas': g['rmd'] is not None, 'ffval': g['rmd'] or 0}
+            sc['btspec'] = {'given': given_bt, 'val': 1 if given_bt else 0, 'ffhas': g['bt'] is not None, 'ffval': g['bt'] or 0}
             sc['fam'] = 'hist'
             sc['role'] = role
             if numerics_ok(sc):
@@ -660,9 +667,6 @@ def make_system(rng):
                 break
         else:
             raise tlc.MachineryError('generator cannot fit a molecule of role %s to the shared processor' % role)
-    if given_bt:
-        for sc in mols:
-            sc['btspec']['val'] = mols[0]['btspec']['val']
     return {'fam': 'hist', 'mols': mols, 'calls': rng.choice([1, 2, 2])}
 
 
